@@ -56,6 +56,18 @@ def _observe_base(self) -> list[int]:
 S.SWorld.observe_base = _observe_base
 
 
+def real_status(w, p, done_before):
+    tk = p.task or getattr(p, "pre_task", None)
+    if p.finished or (tk is not None and tk.done()):
+        return ("none", None)
+    if p.cmd_done > done_before and not p.inbox:
+        out = p.cmd_outcome
+        if out and out[0] == "ok" and isinstance(out[1], tuple) and out[1][0] == "time":
+            return out[1]
+        return out
+    return ("blocked", None)
+
+
 async def settle(n: int = 8):
     for _ in range(n):
         await asyncio.sleep(0)
@@ -77,11 +89,12 @@ async def coordinator(ops, out: dict, chooser=None, nsteps: int = 0):
             w.step_lens.append(len(enc) + len(obs))
 
         seen_idle: dict[int, int] = {}
+        done_before: dict[int, int] = {}
 
         async def completions():
             for t in sorted(pending):
                 p = w.puppets[t]
-                st = w.status_after(p)
+                st = real_status(w, p, done_before.get(t, 0))
                 if st is None or st[0] != "blocked":
                     pending.discard(t)
                     w.pending_start.discard(t)
@@ -90,7 +103,7 @@ async def coordinator(ops, out: dict, chooser=None, nsteps: int = 0):
             for t, p in list(w.puppets.items()):
                 if p.idle_hits != seen_idle.get(t, 0) and t not in pending:
                     seen_idle[t] = p.idle_hits
-                    if p.outcome is not None and p.outcome[0] == "exc":
+                    if p.outcome is not None and p.outcome[0] == "exc" and not p.busy:
                         record(S.RUNWAKE, t, 0, 0, p.outcome)
 
         def op_stream():
@@ -107,7 +120,7 @@ async def coordinator(ops, out: dict, chooser=None, nsteps: int = 0):
         for (c, a, b, d) in op_stream():
             if c < 30:
                 p = w.puppets.get(a)
-                if p is None or not p.at_decision or p.cmdfut.done() or a in pending:
+                if p is None or p.busy or p.finished or a in pending or not p.started:
                     skipped += 1
                     continue
                 # object references must exist in this run
@@ -127,19 +140,26 @@ async def coordinator(ops, out: dict, chooser=None, nsteps: int = 0):
                         d = -1
                 p.outcome = None
                 if c == S.FINISH:
-                    p.cmdfut.set_result(("finish", b))
+                    cmd = ("finish", b)
                 elif c == S.SLEEP and b >= 0:
                     async def short_sleep(pp, _b=b):
                         await w.anyio.sleep(0.002 * _b)
-                    p.cmdfut.set_result(short_sleep)
+                    cmd = short_sleep
                 else:
-                    p.cmdfut.set_result(w.command(c, b, d))
+                    cmd = w.command(c, b, d)
+                seen_idle[a] = p.idle_hits
+                done_before[a] = p.cmd_done
+                p.inbox.append(cmd)
+                if p.cmdfut is not None and not p.cmdfut.done():
+                    p.cmdfut.set_result("inbox")
+                for _ in range(6):
+                    await asyncio.sleep(0)
+                    if not p.inbox and (p.busy or p.at_decision or p.finished):
+                        break
                 await asyncio.sleep(0)
-                await asyncio.sleep(0)
-                st = w.status_after(p)
+                st = real_status(w, p, done_before[a])
                 idle_before = {t: q.idle_hits for t, q in w.puppets.items()}
                 await settle()
-                seen_idle.setdefault(a, p.idle_hits if st is None or st[0] != "exc" else seen_idle.get(a, 0))
                 record(c, a, b, d, st)
                 if st is not None and st[0] == "blocked":
                     pending.add(a)
